@@ -23,6 +23,11 @@ VARIANTS = {
                  ld=['-fsanitize=address,undefined']),
     'tsan': dict(cc='gcc', cxx='g++', flags=['-O1', '-g', '-fno-omit-frame-pointer', '-fsanitize=thread'] + SSE,
                  ld=['-fsanitize=thread']),
+    # coverage-guided fuzzing (clang only: gcc has no -fsanitize=fuzzer); the harness supplies LLVMFuzzerTestOneInput
+    'fuzz': dict(cc='clang', cxx='clang++',
+                 flags=['-O1', '-g', '-fno-omit-frame-pointer', '-fsanitize=fuzzer-no-link,address,undefined',
+                        '-fno-sanitize-recover=all', '-fno-sanitize=vla-bound,object-size'] + SSE,
+                 ld=['-fsanitize=fuzzer,address,undefined']),
     'plain-g': dict(cc='gcc', cxx='g++', flags=['-O1', '-g', '-fno-omit-frame-pointer'] + SSE, ld=[]),
 }
 LIBS = ['-lcfitsio', '-lcholmod', '-lspqr', '-lopenblas', '-lpthread', '-lrt', '-ldl', '-lm']
